@@ -118,12 +118,14 @@ Inductive P1Case (d : det) (m : msg) (p : p1) (v : list lcy) : Prop :=
     lookup (m_ecu m) (emap d) = prevs ++ [L] -> v = prevs ++ [L; Ln] ->
     l_id Ln = next_id d -> l_nr Ln = 1 -> l_ecu Ln = m_ecu m ->
     p_q p = queue d -> p_buf p = buffered d ++ [next_id d] -> p_nid p = next_id d + 1 ->
-    p_msg p = set_lc m (next_id d) -> p_out p = [] -> p_tr p = to_refresh d -> p_pend p = pend d -> P1Case d m p v
+    p_msg p = set_lc m (next_id d) -> p_out p = [] -> p_tr p = to_refresh d -> p_pend p = pend d ->
+    update L m (next_id d) = (L, Some Ln) -> P1Case d m p v
 | CaseJoined prevs L L' :
     lookup (m_ecu m) (emap d) = prevs ++ [L] -> v = prevs ++ [L'] ->
     l_id L' = l_id L -> l_ecu L' = l_ecu L -> l_nr L' = l_nr L + 1 ->
     p_q p = queue d -> p_buf p = buffered d -> p_nid p = next_id d ->
-    p_msg p = set_lc m (l_id L) -> p_out p = [] -> p_tr p = to_refresh d -> p_pend p = pend d -> P1Case d m p v
+    p_msg p = set_lc m (l_id L) -> p_out p = [] -> p_tr p = to_refresh d -> p_pend p = pend d ->
+    update L m (next_id d) = (L', None) -> P1Case d m p v
 | CaseMerged pp P L L' :
     lookup (m_ecu m) (emap d) = pp ++ [P; L] -> v = pp ++ [merge P L'] ->
     l_id L' = l_id L -> l_ecu L' = l_ecu L -> l_nr L' = l_nr L + 1 ->
@@ -135,6 +137,8 @@ Inductive P1Case (d : det) (m : msg) (p : p1) (v : list lcy) : Prop :=
          p_tr p = flush_marks 0 (relabel (l_id L) (l_id P) (queue d)) (to_refresh d))
      \/ (remove_id (l_id L) (buffered d) <> [] /\ p_buf p = remove_id (l_id L) (buffered d) /\
          p_q p = relabel (l_id L) (l_id P) (queue d) /\ p_out p = [] /\ p_tr p = to_refresh d)) ->
+    needs_merge P L' = true ->
+    update L m (next_id d) = (L', None) ->
     P1Case d m p v.
 
 Lemma phase1_cases d m : exists v, p_emap (phase1 d m) = store (m_ecu m) v (emap d) /\ P1Case d m (phase1 d m) v.
@@ -147,10 +151,10 @@ Proof.
     eexists. split; [reflexivity|]. apply CaseNew; auto.
   - apply rev_eq_cons in Erev.
     destruct (update L m (next_id d)) as [L' [Ln|]] eqn:Eu.
-    + pose proof (update_created_nr _ _ _ _ _ Eu) as Hnr.
+    + pose proof (update_created_nr _ _ _ _ _ Eu) as Hnr. pose proof Eu as Eu0.
       apply update_created in Eu. destruct Eu as [-> [Eid Eecu]].
       eexists. split; [reflexivity|]. eapply CaseCreated; eauto; cbn [p_buf p_msg]; rewrite ?Eid; reflexivity.
-    + pose proof (update_joined_nr _ _ _ _ Eu) as Hnr.
+    + pose proof (update_joined_nr _ _ _ _ Eu) as Hnr. pose proof Eu as Eu0.
       apply update_joined in Eu. destruct Eu as [Eid Eecu].
       assert (Hno : exists v, p_emap {| p_emap := store (m_ecu m) (rev prevs_rev ++ [L']) (emap d); p_q := queue d; p_buf := buffered d;
            p_nid := next_id d; p_msg := set_lc m (l_id L'); p_out := []; p_tr := to_refresh d; p_pend := pend d |} = store (m_ecu m) v (emap d) /\
@@ -160,7 +164,7 @@ Proof.
       destruct prevs_rev as [|P pp]; [exact Hno|].
       destruct (needs_merge P L' && (inb (l_id P) (buffered d) || (count_lc (l_id L') (queue d) + 1 =? l_nr L'))) eqn:Em; [|exact Hno].
       clear Hno. cbn [rev] in Erev. rewrite <- app_assoc in Erev. cbn [app] in Erev.
-      apply andb_true_iff in Em. destruct Em as [_ Em]. apply orb_true_iff in Em.
+      apply andb_true_iff in Em. destruct Em as [Hnm Em]. apply orb_true_iff in Em.
       assert (Hc : inb (l_id P) (buffered d) = true \/ count_lc (l_id L) (queue d) + 1 = l_nr L').
       { destruct Em as [Em|Em]; [left; exact Em|right; apply N.eqb_eq in Em; rewrite <- Eid; exact Em]. }
       rewrite Eid.
@@ -189,9 +193,9 @@ Proof.
     (forall L, In L rest -> ~ In (l_id L) (map l_id (lookup (m_ecu m) (emap d))))).
   { intros H1 H2 H3. destruct (store_transfer (emap d) (m_ecu m) v HK Hnd H1 H2 H3) as [rest [_ [_ [A' [A0 D]]]]]. exists rest. auto. }
   destruct HC as [Hl -> _ _ _ _ _ _ _
-                 |prevs L Ln Hl -> Eid Enr Eecu _ _ _ _ _ _ _
-                 |prevs L L' Hl -> Eid Eecu Enr _ _ _ _ _ _ _
-                 |pp P L L' Hl -> Eid Eecu Enr _ _ _ _ _].
+                 |prevs L Ln Hl -> Eid Enr Eecu _ _ _ _ _ _ _ _
+                 |prevs L L' Hl -> Eid Eecu Enr _ _ _ _ _ _ _ _
+                 |pp P L L' Hl -> Eid Eecu Enr _ _ _ _ _ _ _].
   - apply Hgo.
     + intros L0 [<-|[]]. reflexivity.
     + cbn. constructor; [intros []|constructor].
@@ -294,9 +298,9 @@ Proof.
     split; [rewrite E1, <- app_assoc; reflexivity|]. split; [exact E2|exact E3]. }
   set (p := phase1 d m) in *.
   destruct HC as [Hl -> Eq Ebuf Enid Emsg Eout Etr Epend
-                 |prevs L Ln Hl -> Eid Enr Eecu Eq Ebuf Enid Emsg Eout Etr Epend
-                 |prevs L L' Hl -> Eid Eecu Enr Eq Ebuf Enid Emsg Eout Etr Epend
-                 |pp P L L' Hl -> Eid Eecu Enr Hcond Enid Emsg Epend Hsub].
+                 |prevs L Ln Hl -> Eid Enr Eecu Eq Ebuf Enid Emsg Eout Etr Epend Eupd
+                 |prevs L L' Hl -> Eid Eecu Enr Eq Ebuf Enid Emsg Eout Etr Epend Eupd
+                 |pp P L L' Hl -> Eid Eecu Enr Hcond Enid Emsg Epend Hsub Hnm Eupd].
   - (* new ECU *)
     constructor; rewrite ?Eem, ?Eq, ?Emsg, ?Eout, ?Ebuf; cbn [app].
     + intros k ls Hin. apply (HoldS k ls Hin). repeat constructor.
